@@ -323,6 +323,7 @@ func c04Resp(i int) *pb.Message { return &pb.Message{Count: int32(100 + i), Payl
 // c04Run executes one repetition of the case on the given carrier.
 func c04Run(c *c04Case, carrier string, rep int) *c04Obs {
 	obs := &c04Obs{Rep: rep, HandlerSawDone: "n/a"}
+	goroutinesBefore, _ := libraryGoroutines()
 	mctx := newManualCtx(context.Background(), c.Mode == "deadline")
 	if c.Cause && c.Mode == "cancel" {
 		mctx = newManualCauseCtx(context.Background())
@@ -697,6 +698,21 @@ func c04Run(c *c04Case, carrier string, rep int) *c04Obs {
 			if strings.Contains(r, "code = ") && !strings.Contains(r, "code = "+wantCode.String()) && !strings.Contains(r, "recv again") {
 				obs.Fault = fmt.Sprintf("handler returned %s, client saw %q", obs.HandlerRet, r)
 			}
+		}
+	}
+	if obs.Fault == "" && carrier == cInproc && obs.HandlerRet != "" {
+		// the call is over on both sides (context ended, handler returned): nothing of it stays behind
+		deadline := time.Now().Add(3 * time.Second)
+		for {
+			n, dump := libraryGoroutines()
+			if n <= goroutinesBefore {
+				break
+			}
+			if time.Now().After(deadline) {
+				obs.Fault = fmt.Sprintf("%d library goroutine(s) still alive 3s after the context ended and the handler returned (%s):\n%s", n-goroutinesBefore, obs.HandlerRet, dump)
+				break
+			}
+			time.Sleep(200 * time.Microsecond)
 		}
 	}
 	return obs
